@@ -15,7 +15,7 @@ import ast
 
 from ..index import AnchorMissing, Unrecognised
 from ..cfg import CFG
-from ..astutil import u, body_walk, local_env, func_calls, walk_local, single_return_expr, inline_locals
+from ..astutil import linear_body, u, body_walk, local_env, func_calls, walk_local, single_return_expr, inline_locals
 from ..pend import edge_facts
 from .. import sym, resolve
 
@@ -39,7 +39,7 @@ def r1_lockstep(ctx):
     r4_context_immutable(ctx)
     gc = ctx.index.func(f"{GD}.genome_context", "GenomeContext.__init__")
     env = {}
-    for s in gc.node.body:
+    for s in linear_body(gc.node):
         if isinstance(s, ast.Assign):
             env.setdefault(u(s.targets[0]), []).append(s.value)
     ok = sym.canon(env["self._chrom_size_dict"][0]) == sym.canon(sym.parse_expr("{key: value for key, value in chrom_size_dict.items() if key in self._included}")) and \
@@ -207,9 +207,13 @@ def r5_strand_selectors(ctx):
     n = check_strand_selectors(ctx, restrict_modules=set(MODS))
     ctx.floor("strand selector sites in the genomic-data modules", n, 3)
     gl = ctx.index.func(f"{GD}.genomic_intervals", "GenomicIntervalsFull.get_location")
-    loc = [x for x in body_walk(gl.node) if isinstance(x, ast.Assign) and u(x.targets[0]) == "location" and isinstance(x.value, ast.Call) and u(x.value.func) == "np.where"]
-    ok = len(loc) == 1 and sym.canon(loc[0].value) == sym.canon(sym.parse_expr(f"np.where(self.strand == ('+' if {gl.params[1]} == 'start' else '-'), self.start, self.stop - 1)"))
-    ctx.ob(gl.where, "stranded start/stop location: the 5' end is `start` on '+' and `stop - 1` on '-' (and the reverse for the 3' end)", ok, u(loc[0].value) if loc else "", key="C10-R5|get-location")
+    loc = [x for x in body_walk(gl.node) if isinstance(x, ast.Call) and u(x.func) == "np.where"]      # whether or not the selection is given a name
+    ok = len(loc) == 1 and sym.canon(loc[0]) == sym.canon(sym.parse_expr(f"np.where(self.strand == ('+' if {gl.params[1]} == 'start' else '-'), self.start, self.stop - 1)"))
+    ctx.ob(gl.where, "stranded start/stop location: the 5' end is `start` on '+' and `stop - 1` on '-' (and the reverse for the 3' end)", ok, u(loc[0]) if loc else "", key="C10-R5|get-location")
+    reps = [c for c in func_calls(gl.node) if u(c.func) == "replace" and any(k.arg == "start" for k in c.keywords)]
+    env5 = local_env(gl.node)
+    ok = any(sym.canon(next(k.value for k in c.keywords if k.arg == "start")) in ("location", sym.canon(loc[0]) if loc else "") for c in reps)
+    ctx.ob(gl.where, "the selected position becomes the location's coordinate", ok, "; ".join(u(c)[:80] for c in reps), key="C10-R5|get-location-used")
 
 
 def r6_resolve(ctx):
